@@ -79,6 +79,17 @@ func (c *chanList) remove(id uint32) {
 	c.Unlock()
 }
 
+// removeChan forgets ch if it still occupies its id. The id of a channel
+// that was already removed may have been given to another channel.
+func (c *chanList) removeChan(ch *channel) {
+	id := ch.localId - c.offset
+	c.Lock()
+	if id < uint32(len(c.chans)) && c.chans[id] == ch {
+		c.chans[id] = nil
+	}
+	c.Unlock()
+}
+
 // dropAll forgets all channels it knows, returning them in a slice.
 func (c *chanList) dropAll() []*channel {
 	c.Lock()
